@@ -234,6 +234,10 @@ def gen_field(rng, profile, soil_cn):
         f["curve_number_adj"] = True
         hi = int(min(30, (98.0 / soil_cn - 1) * 100))
         f["curve_number_adj_pct"] = rng.choice([x for x in [-30, -15, -5, 0, 5, 10, 20, 30] if x <= hi])
+        if rng.random() < 0.2:
+            # the upper limit of the property's quantifier: an effective curve number just below or at 100
+            import math
+            f["curve_number_adj_pct"] = math.floor((100.0 / soil_cn - 1) * 100)
     return f or None
 
 
@@ -290,6 +294,16 @@ def gen_co2(rng, profile, spec):
     first = y0 - 1 - rng.randrange(step)
     years = list(range(first, y1 + 2 + step + _p(profile, "co2_series_extra_years", 0), step))
     series = [[y, round(base + 2.5 * (y - y0) + rng.uniform(-1, 1), 2)] for y in years]
+    shape = rng.random()
+    if shape < 0.2 and len(series) > 3:
+        # scenario steps: the same value for several consecutive years
+        for i in range(1, len(series)):
+            if rng.random() < 0.6:
+                series[i][1] = series[i - 1][1]
+    elif shape < 0.35 and y1 - y0 >= 2:
+        # a record that ends before the simulation does (the last value is held) or starts after it began
+        cut = rng.randint(y0, y1 - 1)
+        series = [r for r in series if r[0] <= cut] or series[:1]
     return {"series": series}
 
 
